@@ -207,7 +207,9 @@ CONFIG["C07"] = dict(
                "Joint-Feldman, instance by instance (joint_instances_agree, Proofs/DkgJointAgree): every broadcast reaches all n instances; for the instance of dealer d a broadcast of another participant A is ignored unless it is A's complaint against d "
                "(joint_irrelevant_broadcasts_ignored), so with the network hypothesis on the FULL broadcast streams (NetD) two honest participants end every instance whose dealer is neither of them - honest or Byzantine - with the same public result. "
                "joint_instance_views_agree gives the same for what Joint End uses of an instance (settled verdict, vector of a qualified dealer), and joint_end_agrees_given_instances_partial assembles them: participants whose n instances have pairwise the same public view get from End the same public result (jpub; tie jres_jpub to the model of JointFeldman.End), each with its own combined share. "
-               "Partial: the two instances whose dealer is one of the two participants themselves (the dealer's own view against a receiver's view; the receiver's side is honest_dealer_never_disqualified of C08) enter that theorem as a hypothesis; they are exercised by the runs and the agreement predicates.",
+               "For the two instances the participants deal themselves: honest_dealer_instance_views_agree - the dealer's own instance (invariant DS over every delivery and timeout: it keeps its vector, answers every complaint at once, stays qualified while at most t participants complain; dealer_instance_after_start) "
+               "and an honest receiver's instance (hypotheses of honest_dealer_never_disqualified) end with the same public view. "
+               "Partial: the per-instance hypotheses (NetD for the other dealers, the honest-dealer hypotheses for the own dealings) are not yet composed into one closed statement about a Joint-Feldman execution; that composition is exercised by the runs and the agreement predicates.",
     level_note="Lean kernel + correspondence; reliable broadcast and round synchrony are assumptions of the property, implemented by the scheduler",
     assumptions=["reliable broadcast, round-synchronous delivery, at most t Byzantine participants"],
 )
